@@ -17,7 +17,7 @@ FUNCTIONS = ["pedal.cait.stretchy_tree_matching.StretchyTreeMatcher.find_matches
              "pedal.cait.ast_map.AstMap", "pedal.cait.cait_node.CaitNode"]
 BOUNDS = {"quick": "24 pattern x shape pairs + 11 boundary identifiers", "thorough": "44 pairs + 11 boundary identifiers",
           "leaves": "3 identifiers <= 2 chars (any unicode), 2 constants int|bool|float|str|None"}
-OUTSIDE = ["student shapes beyond the 11 listed (depth <= 3, <= 3 statements)", "use_previous sub-matching", "class definitions", "patterns longer than 3 statements",
+OUTSIDE = ["student shapes beyond the 11 listed (depth <= 3, <= 3 statements)", "class definitions", "patterns longer than 3 statements",
            "`pass` in a pattern is treated as 'any statement' (pedal's documented/tested behaviour)"]
 ASSUMPTIONS = ["student trees built with ast constructors stand for the programs CPython would parse to them", "FeedbackFieldWrapper copy-safety shim"]
 
@@ -29,5 +29,7 @@ def obligations(tier):
     obs = [Ob("C10.sound", F, "sound", 400, part=str(k), what="every returned match passes the witness checker; no match when the pattern's concrete content is absent (pattern/shape pair = partition)") for k in ks]
     for k in range(11):
         obs.append(Ob("C10.ident_boundary", F, "ident_boundary", 100, part=str(k), what="a near-placeholder identifier is concrete code: matches exactly programs using that identifier"))
+    for k in range(10):
+        obs.append(Ob("C10.sub_sound", F, "sub_sound", 300, part=str(k), what="sub-matching that inherits an earlier match (match['__e__'].find_matches(inner)): one identifier per _name_ across outer and inner match"))
     obs.append(Ob("C10.sound_reach", F, "sound_reach", 60, expect="refute", what="twin: `_a_ = _a_ + 1` matches for suitable leaves"))
     return obs
